@@ -28,6 +28,9 @@ import (
 	wservice "github.com/metrico/qryn/writer/service"
 	"github.com/metrico/qryn/writer/service/impl"
 	"github.com/metrico/qryn/writer/utils/unmarshal"
+	"unicode/utf8"
+
+	v11 "go.opentelemetry.io/proto/otlp/common/v1"
 	trace "go.opentelemetry.io/proto/otlp/trace/v1"
 	"google.golang.org/protobuf/proto"
 	"verif/harness/fakes"
@@ -270,7 +273,7 @@ func c06OtlpPayloadName(p []byte) string {
 	if err := proto.Unmarshal(p, sp); err != nil {
 		return "X" + hex.EncodeToString(p)
 	}
-	return "O" + strings.Join(c06SpanTokens(sp, nil), ",")
+	return "O" + strconv.Itoa(int(p[0])) + "," + strings.Join(c06SpanTokens(sp, nil), ",")
 }
 
 // ---------------------------------------------------------------- read path (child process)
@@ -278,6 +281,10 @@ func c06OtlpPayloadName(p []byte) string {
 type c06ReadJob struct {
 	Rows []c06Row
 	Sort bool // OTLP: attributes come out of a Go map, compare them sorted
+	// trace-by-id parameters (empty Tid: the trace id of the first row, no time bounds)
+	Tid        string
+	Start, End int64
+	View       bool // also render every returned span with SpanToJSONSpan
 }
 
 type c06ReadResult struct {
@@ -285,6 +292,8 @@ type c06ReadResult struct {
 	Spans [][]byte // proto.Marshal of each returned span (nil entry = nil span)
 	Svcs  []string
 	Err   string
+	Views []string // canonical text of the JSON view of each response ("FAULT" when SpanToJSONSpan faults)
+	JSON  []string // json.Marshal of the view (oracle: must be a JSON document)
 }
 
 func c06SpanText(sp *trace.Span, svc string, sortAttrs bool) string {
@@ -302,9 +311,13 @@ func c06SpanText(sp *trace.Span, svc string, sortAttrs bool) string {
 	if sp.Status != nil {
 		code, msg = int(sp.Status.Code), sp.Status.Message
 	}
+	var events []string
+	for _, e := range sp.Events {
+		events = append(events, strconv.FormatUint(e.GetTimeUnixNano(), 10)+","+c06hex(e.GetName()))
+	}
 	return strings.Join([]string{"S", h.Hex(sp.TraceId), h.Hex(sp.SpanId), h.Hex(sp.ParentSpanId), c06hex(sp.Name), strconv.Itoa(int(sp.Kind)),
 		strconv.FormatUint(sp.StartTimeUnixNano, 10), strconv.FormatUint(sp.EndTimeUnixNano, 10), strconv.Itoa(code), c06hex(msg), c06hex(svc),
-		strings.Join(attrs, ";")}, ":")
+		strings.Join(attrs, ";"), strings.Join(events, ";")}, ":")
 }
 
 // c06ReadRows replays the rows as the result set of the trace query and runs the real read path.
@@ -324,11 +337,11 @@ func c06ReadRows(job c06ReadJob) c06ReadResult {
 		return res
 	}
 	svc := rservice.NewTempoService(rmodel.ServiceData{Session: reg})
-	tid := ""
-	if len(job.Rows) > 0 {
+	tid := job.Tid
+	if tid == "" && len(job.Rows) > 0 {
 		tid = hex.EncodeToString(job.Rows[0].Tid)
 	}
-	ch, err := svc.Query(context.Background(), 0, 0, []byte(tid), false)
+	ch, err := svc.Query(context.Background(), job.Start, job.End, []byte(tid), false)
 	if err != nil {
 		res.Err = err.Error()
 		return res
@@ -339,17 +352,25 @@ func c06ReadRows(job c06ReadJob) c06ReadResult {
 		if r.Span == nil {
 			res.Spans = append(res.Spans, nil)
 		} else {
-			b, _ := proto.Marshal(r.Span)
-			res.Spans = append(res.Spans, b)
+			res.Spans = append(res.Spans, c06EncodeSpan(r.Span))
 		}
-		res.Svcs = append(res.Svcs, r.ServiceName)
+		res.Svcs = append(res.Svcs, c06EscStr(r.ServiceName))
+		if job.View {
+			v, js := c06JSONView(r.Span)
+			res.Views = append(res.Views, v)
+			res.JSON = append(res.JSON, js)
+		}
 	}
 	end := "done"
 	if len(texts) < len(job.Rows) {
 		end = "stopped"
 	}
 	qs := script.Queries()
-	if len(qs) != 1 || !strings.Contains(qs[0], "unhex('"+tid+"')") || !strings.Contains(qs[0], "tempo_traces") {
+	if len(qs) != 1 || !strings.Contains(qs[0], "unhex('"+tid+"')") || !strings.Contains(qs[0], "tempo_traces") ||
+		!strings.Contains(qs[0], "ORDER BY timestamp_ns") || !strings.Contains(qs[0], "LIMIT 2000") ||
+		(job.Start != 0) != strings.Contains(qs[0], "(timestamp_ns) >= ("+strconv.FormatInt(job.Start, 10)+")") ||
+		(job.End != 0) != strings.Contains(qs[0], "(timestamp_ns) < ("+strconv.FormatInt(job.End, 10)+")") ||
+		(job.Start == 0 && strings.Contains(qs[0], ">=")) || (job.End == 0 && strings.Contains(qs[0], "(timestamp_ns) <")) {
 		res.Err = fmt.Sprintf("unexpected trace query: %q", qs)
 	}
 	res.Canon = strings.Join(append([]string{end}, texts...), "|")
@@ -416,6 +437,9 @@ func c06ReadAll(jobs []c06ReadJob) ([]*c06ReadResult, error) {
 			if err := json.Unmarshal([]byte(parts[2]), &rr); err != nil {
 				return nil, fmt.Errorf("child result: %v", err)
 			}
+			for k := range rr.Svcs {
+				rr.Svcs[k] = c06UnescStr(rr.Svcs[k])
+			}
 			results[start+idx] = &rr
 			done++
 		}
@@ -433,4 +457,86 @@ func c06ReadAll(jobs []c06ReadJob) ([]*c06ReadResult, error) {
 		start += done + 1
 	}
 	return results, nil
+}
+
+// proto.Marshal refuses strings that are not UTF-8 (the Zipkin writer lets them through): such strings travel from the
+// child process as "\x01RAW:" + hex and are restored by c06SpanOf.
+const c06RawMark = "\x01RAW:"
+
+func c06EscStr(s string) string {
+	if utf8.ValidString(s) {
+		return s
+	}
+	return c06RawMark + hex.EncodeToString([]byte(s))
+}
+
+func c06UnescStr(s string) string {
+	if strings.HasPrefix(s, c06RawMark) {
+		b, err := hex.DecodeString(s[len(c06RawMark):])
+		if err == nil {
+			return string(b)
+		}
+	}
+	return s
+}
+
+func c06MapVal(v *v11.AnyValue, f func(string) string) {
+	switch x := v.GetValue().(type) {
+	case *v11.AnyValue_StringValue:
+		x.StringValue = f(x.StringValue)
+	case *v11.AnyValue_ArrayValue:
+		for _, e := range x.ArrayValue.GetValues() {
+			c06MapVal(e, f)
+		}
+	case *v11.AnyValue_KvlistValue:
+		for _, kv := range x.KvlistValue.GetValues() {
+			kv.Key = f(kv.Key)
+			c06MapVal(kv.Value, f)
+		}
+	}
+}
+
+func c06MapSpan(sp *trace.Span, f func(string) string) {
+	sp.Name = f(sp.Name)
+	sp.TraceState = f(sp.TraceState)
+	for _, kv := range sp.Attributes {
+		kv.Key = f(kv.Key)
+		c06MapVal(kv.Value, f)
+	}
+	for _, e := range sp.Events {
+		e.Name = f(e.Name)
+		for _, kv := range e.Attributes {
+			kv.Key = f(kv.Key)
+			c06MapVal(kv.Value, f)
+		}
+	}
+	if sp.Status != nil {
+		sp.Status.Message = f(sp.Status.Message)
+	}
+}
+
+func c06EncodeSpan(sp *trace.Span) []byte {
+	c := proto.Clone(sp).(*trace.Span)
+	c06MapSpan(c, c06EscStr)
+	b, err := proto.Marshal(c)
+	if err != nil {
+		return nil
+	}
+	if len(b) == 0 {
+		return []byte{}
+	}
+	return b
+}
+
+// c06SpanOf: the span a child process returned (nil = nil span or undecodable)
+func c06SpanOf(b []byte) *trace.Span {
+	if b == nil {
+		return nil
+	}
+	sp := &trace.Span{}
+	if proto.Unmarshal(b, sp) != nil {
+		return nil
+	}
+	c06MapSpan(sp, c06UnescStr)
+	return sp
 }
